@@ -31,7 +31,7 @@ let shard_info = lazy (
 let case_no = ref 0
 let sharded emit (mk : unit -> string * (bool -> string)) =
   let (shard, nshards) = Lazy.force shard_info in
-  (if !case_no mod nshards = shard then (let (case, f) = mk () in Streams.both emit case f) else emit "" "" "");
+  ignore (shard, nshards); (if Streams.mine () then (let (case, f) = mk () in Streams.both emit case f) else emit "" "" "");
   incr case_no
 let both emit (case : unit -> string) (f : bool -> string) = sharded emit (fun () -> (case (), f))
 
